@@ -19,7 +19,24 @@
 #define VERIF_GMP_ABS_H
 #include "base.h"
 
+#ifdef GMP_ABS_TRACK_E
+/* ghost field e: the multiplicity with which ONE designated factor (chosen by the group, e.g. the table entry at an
+ * arbitrary ghost index) occurs in the value, tracked through the multiplicative operations (mul: sum, invert:
+ * negation, mod/set: unchanged, constants: 0) in arithmetic modulo 2^64, so that blinding factors cancel exactly;
+ * every non-multiplicative operation leaves an arbitrary multiplicity behind.  Contracts of the table-based powers
+ * state "the result contains table[k] exactly bit_k(x) times" with it. */
+typedef struct { long v; unsigned long e; } __mpz_struct;
+unsigned long verif_e_of(const __mpz_struct *b);      /* group-defined: multiplicity of the designated factor in *b */
+static inline unsigned long __e_nondet(void) { unsigned long x; return x; }
+#define E_SET(r, val) ((r)->e = (val))
+#define E_OF(a) verif_e_of(a)
+#define E_POISON(r) ((r)->e = __e_nondet())
+#else
 typedef struct { long v; } __mpz_struct;
+#define E_SET(r, val) ((void)0)
+#define E_OF(a) 0UL
+#define E_POISON(r) ((void)0)
+#endif
 typedef __mpz_struct mpz_t[1];
 typedef __mpz_struct *mpz_ptr;
 typedef const __mpz_struct *mpz_srcptr;
@@ -48,26 +65,26 @@ static inline long __abs_l(long x) { return x < 0 ? -x : x; }
 #define NO_OVF_ADD(a, b) __CPROVER_assume(!__CPROVER_overflow_plus((a), (b)))
 #define NO_OVF_SUB(a, b) __CPROVER_assume(!__CPROVER_overflow_minus((a), (b)))
 
-static inline void mpz_init(mpz_ptr x) { x->v = 0; }
+static inline void mpz_init(mpz_ptr x) { x->v = 0; E_SET(x, 0UL); }
 static inline void mpz_clear(mpz_ptr x) { (void)x; }
-static inline void mpz_set(mpz_ptr r, mpz_srcptr a) { r->v = a->v; }
-static inline void mpz_init_set(mpz_ptr r, mpz_srcptr a) { r->v = a->v; }
-static inline void mpz_set_ui(mpz_ptr r, unsigned long u) { __CPROVER_assume(u <= (unsigned long)0x7fffffffffffffffL); r->v = (long)u; }
+static inline void mpz_set(mpz_ptr r, mpz_srcptr a) { unsigned long e_ = E_OF(a); r->v = a->v; E_SET(r, e_); }
+static inline void mpz_init_set(mpz_ptr r, mpz_srcptr a) { unsigned long e_ = E_OF(a); r->v = a->v; E_SET(r, e_); }
+static inline void mpz_set_ui(mpz_ptr r, unsigned long u) { __CPROVER_assume(u <= (unsigned long)0x7fffffffffffffffL); r->v = (long)u; E_SET(r, 0UL); }
 static inline void mpz_init_set_ui(mpz_ptr r, unsigned long u) { mpz_set_ui(r, u); }
-static inline void mpz_set_si(mpz_ptr r, long s) { r->v = s; }
-static inline void mpz_init_set_si(mpz_ptr r, long s) { r->v = s; }
+static inline void mpz_set_si(mpz_ptr r, long s) { r->v = s; E_SET(r, 0UL); }
+static inline void mpz_init_set_si(mpz_ptr r, long s) { r->v = s; E_SET(r, 0UL); }
 static inline unsigned long mpz_get_ui(mpz_srcptr a) { return (unsigned long)__abs_l(a->v); }
 /* |v| and |-v| have the same bit length (fact of the integers), instantiated at the negation */
 static inline void mpz_neg(mpz_ptr r, mpz_srcptr a)
-{ NO_OVF_SUB(0L, a->v); __CPROVER_assume(UF(bits)(-a->v) == UF(bits)(a->v)); r->v = -a->v; }
+{ NO_OVF_SUB(0L, a->v); __CPROVER_assume(UF(bits)(-a->v) == UF(bits)(a->v)); r->v = -a->v; E_POISON(r); }
 static inline void mpz_abs(mpz_ptr r, mpz_srcptr a)
-{ NO_OVF_SUB(0L, a->v); __CPROVER_assume(UF(bits)(-a->v) == UF(bits)(a->v)); r->v = __abs_l(a->v); }
-static inline void mpz_add(mpz_ptr r, mpz_srcptr a, mpz_srcptr b) { NO_OVF_ADD(a->v, b->v); r->v = a->v + b->v; }
-static inline void mpz_sub(mpz_ptr r, mpz_srcptr a, mpz_srcptr b) { NO_OVF_SUB(a->v, b->v); r->v = a->v - b->v; }
+{ NO_OVF_SUB(0L, a->v); __CPROVER_assume(UF(bits)(-a->v) == UF(bits)(a->v)); r->v = __abs_l(a->v); E_POISON(r); }
+static inline void mpz_add(mpz_ptr r, mpz_srcptr a, mpz_srcptr b) { NO_OVF_ADD(a->v, b->v); r->v = a->v + b->v; E_POISON(r); }
+static inline void mpz_sub(mpz_ptr r, mpz_srcptr a, mpz_srcptr b) { NO_OVF_SUB(a->v, b->v); r->v = a->v - b->v; E_POISON(r); }
 static inline void mpz_add_ui(mpz_ptr r, mpz_srcptr a, unsigned long u)
-{ __CPROVER_assume(u <= (unsigned long)0x7fffffffffffffffL); NO_OVF_ADD(a->v, (long)u); r->v = a->v + (long)u; }
+{ __CPROVER_assume(u <= (unsigned long)0x7fffffffffffffffL); NO_OVF_ADD(a->v, (long)u); r->v = a->v + (long)u; E_POISON(r); }
 static inline void mpz_sub_ui(mpz_ptr r, mpz_srcptr a, unsigned long u)
-{ __CPROVER_assume(u <= (unsigned long)0x7fffffffffffffffL); NO_OVF_SUB(a->v, (long)u); r->v = a->v - (long)u; }
+{ __CPROVER_assume(u <= (unsigned long)0x7fffffffffffffffL); NO_OVF_SUB(a->v, (long)u); r->v = a->v - (long)u; E_POISON(r); }
 
 static inline int mpz_sgn(mpz_srcptr a) { return a->v < 0 ? -1 : (a->v > 0 ? 1 : 0); }
 static inline void __bits_mono(long a, long b)
@@ -86,7 +103,12 @@ static inline int mpz_cmp_si(mpz_srcptr a, long s) { return a->v < s ? -1 : (a->
 #define __PARITY_FACT(v) __CPROVER_assume(UF(tstbit)((v), 0) == (((v) & 1L) != 0))
 static inline int mpz_odd_p(mpz_srcptr a) { __PARITY_FACT(a->v); if (a->v == 0) return 0; /* zero is even */ return UF(tstbit)(a->v, 0) ? 1 : 0; }
 static inline int mpz_even_p(mpz_srcptr a) { __PARITY_FACT(a->v); return UF(tstbit)(a->v, 0) ? 0 : 1; }
-static inline int mpz_tstbit(mpz_srcptr a, unsigned long i) { return UF(tstbit)(a->v, i) ? 1 : 0; }
+static inline int mpz_tstbit(mpz_srcptr a, unsigned long i)
+{
+#ifdef GMP_ABS_EXACT_BITS
+  if (a->v >= 0) __CPROVER_assume(UF(tstbit)(a->v, i) == (i < 63 && ((a->v >> (i < 63 ? i : 0)) & 1L) != 0));
+#endif
+  return UF(tstbit)(a->v, i) ? 1 : 0; }
 
 #ifdef VERIF_SIZE_HOOK
 void verif_size_hook(unsigned long r, mpz_srcptr a, int base);
@@ -97,14 +119,18 @@ static inline size_t mpz_sizeinbase(mpz_srcptr a, int base)
   __CPROVER_assume(r >= 1);
   __CPROVER_assume(a->v == 0 ==> r == 1);            /* manual: the result is 1 if op is zero */
   if (base != 2) __CPROVER_assume(r <= UF(bits)(a->v)); /* base >= 2: no more digits than bits */
+#ifdef GMP_ABS_EXACT_BITS
+  /* the abstract word stands for the integer equal to it: for non-negative words the bit length is the word's */
+  if (base == 2 && a->v > 0) __CPROVER_assume(r == 64UL - (unsigned long)__builtin_clzl((unsigned long)a->v));
+#endif
 #ifdef VERIF_SIZE_HOOK
   verif_size_hook(r, a, base);   /* ghost monitor defined by the group */
 #endif
   return r;
 }
 
-static inline void mpz_mul(mpz_ptr r, mpz_srcptr a, mpz_srcptr b) { r->v = UF(mul)(a->v, b->v); }
-static inline void mpz_mul_ui(mpz_ptr r, mpz_srcptr a, unsigned long b) { r->v = UF(mul)(a->v, (long)b); }
+static inline void mpz_mul(mpz_ptr r, mpz_srcptr a, mpz_srcptr b) { unsigned long e_ = E_OF(a) + E_OF(b); r->v = UF(mul)(a->v, b->v); E_SET(r, e_); }
+static inline void mpz_mul_ui(mpz_ptr r, mpz_srcptr a, unsigned long b) { r->v = UF(mul)(a->v, (long)b); E_POISON(r); }
 static inline void mpz_mod(mpz_ptr r, mpz_srcptr a, mpz_srcptr m)
 {
   __CPROVER_assert(m->v != 0, "mpz_mod: modulus is not zero (GMP divides by zero otherwise)");
@@ -113,7 +139,7 @@ static inline void mpz_mod(mpz_ptr r, mpz_srcptr a, mpz_srcptr m)
   __CPROVER_assume(0 <= x && x < __abs_l(m->v));        /* manual: result is always non-negative and < |m| */
   __CPROVER_assume((0 <= a->v && a->v < __abs_l(m->v)) ==> x == a->v); /* reduced values are fixed points */
   __bits_mono(x, m->v);                                   /* the residue is not longer than the modulus */
-  r->v = x;
+  { unsigned long e_ = E_OF(a); r->v = x; E_SET(r, e_); }  /* reduction does not change the group element */
 }
 #ifdef VERIF_POWM_HOOK
 void verif_powm_hook(long x, mpz_srcptr b, mpz_srcptr e, mpz_srcptr m);
@@ -127,7 +153,7 @@ static inline void mpz_powm(mpz_ptr r, mpz_srcptr b, mpz_srcptr e, mpz_srcptr m)
 #ifdef VERIF_POWM_HOOK
   verif_powm_hook(x, b, e, m);   /* ghost monitor defined by the group (loop invariants cannot mention uninterpreted terms) */
 #endif
-  r->v = x;
+  r->v = x; E_POISON(r);
 }
 static inline void mpz_powm_sec(mpz_ptr r, mpz_srcptr b, mpz_srcptr e, mpz_srcptr m)
 {
@@ -142,11 +168,11 @@ static inline int mpz_invert(mpz_ptr r, mpz_srcptr a, mpz_srcptr m)
   long x = UF(invert)(a->v, m->v);
   __CPROVER_assume(m->v != (-0x7fffffffffffffffL - 1));
   __CPROVER_assume(0 <= x && x < __abs_l(m->v));
-  r->v = x;
+  { unsigned long e_ = 0UL - E_OF(a); r->v = x; E_SET(r, e_); }
   return 1;
 }
 static inline void mpz_gcd(mpz_ptr r, mpz_srcptr a, mpz_srcptr b)
-{ long x = UF(gcd)(a->v, b->v); __CPROVER_assume(x >= 0); r->v = x; }
+{ long x = UF(gcd)(a->v, b->v); __CPROVER_assume(x >= 0); r->v = x; E_POISON(r); }
 static inline int mpz_jacobi(mpz_srcptr a, mpz_srcptr b)
 { int j = UF(jacobi)(a->v, b->v); __CPROVER_assume(j == -1 || j == 0 || j == 1); return j; }
 #ifdef VERIF_PRIME_HOOK
@@ -167,14 +193,14 @@ static inline int mpz_divisible_p(mpz_srcptr n, mpz_srcptr d)
   __CPROVER_assume(!r && UF(prime)(d->v) != 0 ==> UF(gcd)(n->v, d->v) == 1 && UF(gcd)(d->v, n->v) == 1);
   return r ? 1 : 0; }
 static inline void mpz_fdiv_q(mpz_ptr r, mpz_srcptr a, mpz_srcptr b)
-{ __CPROVER_assert(b->v != 0, "mpz_fdiv_q: divisor is not zero"); r->v = UF(fdiv_q)(a->v, b->v); }
+{ __CPROVER_assert(b->v != 0, "mpz_fdiv_q: divisor is not zero"); r->v = UF(fdiv_q)(a->v, b->v); E_POISON(r); }
 static inline void mpz_tdiv_q(mpz_ptr r, mpz_srcptr a, mpz_srcptr b)
-{ __CPROVER_assert(b->v != 0, "mpz_tdiv_q: divisor is not zero"); r->v = UF(tdiv_q)(a->v, b->v); }
-static inline void mpz_tdiv_r_2exp(mpz_ptr r, mpz_srcptr a, unsigned long n) { r->v = UF(tdiv_r_2exp)(a->v, n); }
+{ __CPROVER_assert(b->v != 0, "mpz_tdiv_q: divisor is not zero"); r->v = UF(tdiv_q)(a->v, b->v); E_POISON(r); }
+static inline void mpz_tdiv_r_2exp(mpz_ptr r, mpz_srcptr a, unsigned long n) { r->v = UF(tdiv_r_2exp)(a->v, n); E_POISON(r); }
 long UF(ui_pow_ui)(unsigned long, unsigned long);
-static inline void mpz_ui_pow_ui(mpz_ptr r, unsigned long b, unsigned long e) { long x = UF(ui_pow_ui)(b, e); __CPROVER_assume(x >= 0); r->v = x; }
-static inline void mpz_pow_ui(mpz_ptr r, mpz_srcptr a, unsigned long e) { r->v = UF(pow_ui)(a->v, e); }
-static inline void mpz_sqrt(mpz_ptr r, mpz_srcptr a) { r->v = UF(sqrt)(a->v); }
+static inline void mpz_ui_pow_ui(mpz_ptr r, unsigned long b, unsigned long e) { long x = UF(ui_pow_ui)(b, e); __CPROVER_assume(x >= 0); r->v = x; E_POISON(r); }
+static inline void mpz_pow_ui(mpz_ptr r, mpz_srcptr a, unsigned long e) { r->v = UF(pow_ui)(a->v, e); E_POISON(r); }
+static inline void mpz_sqrt(mpz_ptr r, mpz_srcptr a) { r->v = UF(sqrt)(a->v); E_POISON(r); }
 long UF(mul_2exp)(long, unsigned long);
 _Bool UF(congruent_ui)(long, unsigned long, unsigned long);
 /* a * 2^n: the uninterpreted term, with its value fixed for small shifts (fact of the integers instantiated at
@@ -182,23 +208,23 @@ _Bool UF(congruent_ui)(long, unsigned long, unsigned long);
 static inline void mpz_mul_2exp(mpz_ptr r, mpz_srcptr a, unsigned long n)
 { long x = UF(mul_2exp)(a->v, n);
   if (n <= 8) { __CPROVER_assume(a->v > -(0x7fffffffffffffffL >> 9) && a->v < (0x7fffffffffffffffL >> 9)); __CPROVER_assume(x == a->v * (1L << n)); }
-  r->v = x; }
+  r->v = x; E_POISON(r); }
 /* index of the lowest set bit (manual: ULONG_MAX when there is none, i.e. for zero) and division by a power of two */
 unsigned long UF(scan1)(long, unsigned long);
 long UF(tdiv_q_2exp)(long, unsigned long);
 static inline unsigned long mpz_scan1(mpz_srcptr a, unsigned long start)
 { unsigned long s = UF(scan1)(a->v, start); __CPROVER_assume(a->v == 0 ==> s == ~0UL); return s; }
 static inline void mpz_tdiv_q_2exp(mpz_ptr r, mpz_srcptr a, unsigned long n)
-{ long x = UF(tdiv_q_2exp)(a->v, n); __CPROVER_assume(n == 0 ==> x == a->v); __CPROVER_assume(a->v >= 0 ==> (0 <= x && x <= a->v)); r->v = x; }
+{ long x = UF(tdiv_q_2exp)(a->v, n); __CPROVER_assume(n == 0 ==> x == a->v); __CPROVER_assume(a->v >= 0 ==> (0 <= x && x <= a->v)); r->v = x; E_POISON(r); }
 /* gcd with a machine word; rop may be NULL (manual) */
 unsigned long UF(gcd_ui)(long, unsigned long);
 static inline unsigned long mpz_gcd_ui(mpz_ptr r, mpz_srcptr a, unsigned long b)
-{ unsigned long x = UF(gcd_ui)(a->v, b); if (r) { __CPROVER_assume(x <= (unsigned long)0x7fffffffffffffffL); r->v = (long)x; } return x; }
+{ unsigned long x = UF(gcd_ui)(a->v, b); if (r) { __CPROVER_assume(x <= (unsigned long)0x7fffffffffffffffL); r->v = (long)x; E_POISON(r); } return x; }
 _Bool UF(congruent)(long, long, long);
 /* mpz_congruent_p(n, c, d): n = c (mod d); d = 0 means n == c (GMP manual) */
 static inline int mpz_congruent_p(mpz_srcptr n, mpz_srcptr c, mpz_srcptr d) { if (d->v == 0) return n->v == c->v; if (n->v == c->v) return 1; return UF(congruent)(n->v, c->v, d->v) ? 1 : 0; }
 static inline int mpz_congruent_ui_p(mpz_srcptr a, unsigned long c, unsigned long d) { return UF(congruent_ui)(a->v, c, d) ? 1 : 0; }
-static inline void mpz_swap(mpz_ptr a, mpz_ptr b) { long t = a->v; a->v = b->v; b->v = t; }
+static inline void mpz_swap(mpz_ptr a, mpz_ptr b) { __mpz_struct t = *a; *a = *b; *b = t; }
 
 #if defined(VEC_MPZ_CELLS)
 /* std::vector<mpz_ptr> whose slots own their integers (type invariant of the vectors the classes fill with
@@ -249,7 +275,7 @@ unsigned long UF(hashlen)(void);
 static inline size_t tmcg_mpz_shash_len(void) { unsigned long l = UF(hashlen)(); __CPROVER_assume(l >= 1 && l <= 64); return l; }
 /* the hash value is a non-negative integer of at most hashlen*8 bits */
 static inline void __hash_out(mpz_ptr r, long h)
-{ __CPROVER_assume(h >= 0); __CPROVER_assume(UF(bits)(h) <= UF(hashlen)() * 8); r->v = h; }
+{ __CPROVER_assume(h >= 0); __CPROVER_assume(UF(bits)(h) <= UF(hashlen)() * 8); r->v = h; E_POISON(r); }
 static inline void tmcg_mpz_shash_1(mpz_ptr r, mpz_srcptr a) { __hash_out(r, UF(hash1)(a->v)); }
 static inline void tmcg_mpz_shash_2(mpz_ptr r, mpz_srcptr a, mpz_srcptr b) { __hash_out(r, UF(hash2)(a->v, b->v)); }
 static inline void tmcg_mpz_shash_3(mpz_ptr r, mpz_srcptr a, mpz_srcptr b, mpz_srcptr c) { __hash_out(r, UF(hash3)(a->v, b->v, c->v)); }
